@@ -86,7 +86,7 @@ def faulty_wire(kind, wire, enc):
 
 def cases(ctx):
     max_n = 10 if ctx.tier == 'quick' else 40
-    ns = list(range(1, max_n + 1)) if ctx.tier == 'quick' else list(range(1, 13)) + [17, 25, 40]
+    ns = list(range(1, max_n + 1)) if ctx.tier == 'quick' else list(range(1, 41)) + [64, 100, 257]
     i = 0
     total = 0
     for n in ns:
